@@ -1,5 +1,7 @@
 /-
-C08 — property theorems (stage 1; extended below as the proofs are completed).
+C08 — property theorems: accept_sound (nothing invalid is accepted), accept_complete (the converse), no_panic,
+range_exact / dep_exact, httpParse_sound (the four unmarshalers of rest/httpx.Parse), and the decided witnesses of the
+defects of the pinned commit next to their repaired counterparts.
 -/
 import GoZero.C08.ProofsTotal
 import GoZero.C08.ProofsComplete
@@ -213,5 +215,102 @@ example : complete {} exampleTy exampleIn = true := by decide +kernel
 example : complete {} exampleTy
     (.obj [("a".toList, .num "7".toList), ("b".toList, .num "6".toList), ("d".toList, .str "bar".toList),
            ("e".toList, .obj [("x".toList, .str "1".toList)])]) = false := by decide +kernel
+
+/-! ### round 2: defects of the pinned commit found while widening the family -/
+
+def ptrSliceTy : Ty := .struct (.cons "A".toList (some "a".toList) (.ptr (.slice (.prim (.int 64)))) .nil)
+def ptrMapTy : Ty := .struct (.cons "A".toList (some "a".toList) (.ptr (.map (.prim (.int 64)))) .nil)
+
+/-- sixth defect (pointer to slice / map fields): `A *[]int json:"a"` panics on `{"a":[]}` (`reflect.Set` of a `[][]int`
+into a `*[]int`), `A *map[string]int json:"a"` panics on every input, even `{}` (`reflect.Type.Key` of a pointer type),
+`A []*[]int` panics on `{"a":[[1]]}` — replayed on the real code; 'no input makes the unmarshaller panic' -/
+theorem pinned_ptr_container_panics :
+    (match unmarshal { pinned := true } ptrSliceTy (.obj [("a".toList, .arr [])]) with | .error .panic => true | _ => false) = true
+    ∧ (match unmarshal { pinned := true } ptrMapTy (.obj []) with | .error .panic => true | _ => false) = true
+    ∧ (match unmarshal { pinned := true } (.struct (.cons "A".toList (some "a".toList) (.slice (.ptr (.slice (.prim (.int 64))))) .nil))
+        (.obj [("a".toList, .arr [.arr [.num "1".toList]])]) with | .error .panic => true | _ => false) = true := by
+  refine ⟨?_, ?_, ?_⟩ <;> decide +kernel
+
+/-- the repaired code fills the container and points to it: `{"a":[]}` gives a pointer to an empty slice, `{}` a pointer
+to an empty map, and both inputs are complete (so `accept_complete` covers them) -/
+theorem fixed_ptr_container_accepted :
+    (match unmarshal {} ptrSliceTy (.obj [("a".toList, .arr [])]) with
+     | .ok (.struct (.cons _ (.ptr (.list .nil)) .nil)) => true | _ => false) = true
+    ∧ (match unmarshal {} ptrMapTy (.obj []) with
+       | .ok (.struct (.cons _ (.ptr (.map .nil)) .nil)) => true | _ => false) = true
+    ∧ complete {} ptrSliceTy (.obj [("a".toList, .arr [.num "1".toList, .num "2".toList])]) = true := by
+  refine ⟨?_, ?_, ?_⟩ <;> decide +kernel
+
+/-- `fillSliceWithDefault` at the pinned commit: the parsed default was cached under its text alone, so a `[]string` field
+with `default=[true]` was filled from the list `[true]` (a JSON bool) that a `[]bool` field with the same default text had
+parsed before — `fillSliceValue` refuses a bool for a string element (replayed: type mismatch, although the same type is
+accepted in a fresh process) -/
+def pinnedStringDefaultFromCache (cached : List J) : Except Err Val :=
+  (mapElems (fun j => if j.isNull then .ok (zero (.prim .string)) else elemValue { pinned := true } (.prim .string) j) cached).map
+    (sliceResult cached)
+
+/-- seventh defect: acceptance depended on which types had been unmarshalled before (the converse clause fails) -/
+theorem pinned_defaultCache_witness :
+    (match pinnedStringDefaultFromCache [.bool true] with | .error .mismatch => true | _ => false) = true
+    ∧ complete {} (.struct (.cons "A".toList (some "a,default=[true]".toList) (.slice (.prim .string)) .nil)) (.obj []) = true
+    ∧ (match unmarshal {} (.struct (.cons "A".toList (some "a,default=[true]".toList) (.slice (.prim .string)) .nil)) (.obj []) with
+       | .ok (.struct (.cons _ (.list (.cons (.str s) .nil)) .nil)) => s == "true".toList | _ => false) = true := by
+  refine ⟨?_, ?_, ?_⟩ <;> decide +kernel
+
+/-! ### rest/httpx.Parse -/
+
+/-- **httpParse_sound** — `httpx.Parse` (path, form, header and JSON-body unmarshalers on one request struct): if the
+request is accepted, the result is the merge of four per-source results each of which satisfies the declared constraints
+of the fields of its source against that source's parameters (`GetFormValues` / `ParseHeaders` views included). -/
+theorem httpParse_sound (fs : Fields) (p : Obj) (f h : List (Str × List Str)) (b : Option J) (vs : VFields)
+    (hp : httpParse false fs p f h b = .ok vs) :
+    ∃ v1 v2 v3 v4, vs = mergeViews fs v1 v2 v3 v4
+      ∧ satFields (httpCfgPath false) (viewFields "path".toList fs) p v1 = true
+      ∧ satFields (httpCfgForm false) (viewFields "form".toList fs) (formParams f) v2 = true
+      ∧ satFields (httpCfgHeader false) (viewFields "header".toList fs) (headerParams h) v3 = true
+      ∧ satisfies (httpCfgJson false) (.struct (viewFields "json".toList fs)) (b.getD (.obj [])) (.struct v4) = true := by
+  have e1 : "path".toList = ['p', 'a', 't', 'h'] := rfl
+  have e2 : "form".toList = ['f', 'o', 'r', 'm'] := rfl
+  have e3 : "header".toList = ['h', 'e', 'a', 'd', 'e', 'r'] := rfl
+  have e4 : "json".toList = ['j', 's', 'o', 'n'] := rfl
+  rw [e1, e2, e3, e4]
+  unfold httpParse at hp
+  cases h1 : unmFields (httpCfgPath false) (viewFields ['p', 'a', 't', 'h'] fs) p with
+  | error e => simp [h1] at hp
+  | ok v1 =>
+    cases h2 : unmFields (httpCfgForm false) (viewFields ['f', 'o', 'r', 'm'] fs) (formParams f) with
+    | error e => simp [h1, h2] at hp
+    | ok v2 =>
+      cases h3 : unmFields (httpCfgHeader false) (viewFields ['h', 'e', 'a', 'd', 'e', 'r'] fs) (headerParams h) with
+      | error e => simp [h1, h2, h3] at hp
+      | ok v3 =>
+        cases h4 : unmarshal (httpCfgJson false) (.struct (viewFields ['j', 's', 'o', 'n'] fs)) (b.getD (.obj [])) with
+        | error e => simp [h1, h2, h3, h4] at hp
+        | ok v =>
+          have hs := accept_sound (httpCfgJson false) rfl _ _ _ h4
+          cases v with
+          | struct v4 =>
+            simp [h1, h2, h3, h4] at hp
+            exact ⟨v1, v2, v3, v4, hp.symm, unmFields_sound _ rfl _ _ _ h1, unmFields_sound _ rfl _ _ _ h2,
+              unmFields_sound _ rfl _ _ _ h3, hs⟩
+          | bool x => simp [h1, h2, h3, h4] at hp
+          | int x => simp [h1, h2, h3, h4] at hp
+          | flt x => simp [h1, h2, h3, h4] at hp
+          | str x => simp [h1, h2, h3, h4] at hp
+          | nil => simp [h1, h2, h3, h4] at hp
+          | ptr x => simp [h1, h2, h3, h4] at hp
+          | list x => simp [h1, h2, h3, h4] at hp
+          | map x => simp [h1, h2, h3, h4] at hp
+
+/-- non-vacuity: a request with a path variable, a multi-valued form field in bracket notation with an empty value, a header and a defaulted JSON field -/
+example :
+    (match httpParse false
+        (.cons "A".toList (some "path|a,range=[1:5]".toList) (.prim (.int 64))
+        (.cons "C".toList (some "form|c,optional".toList) (.slice (.prim (.int 64)))
+        (.cons "D".toList (some "header|x-d,optional".toList) (.prim .string)
+        (.cons "E".toList (some "json|e,default=3".toList) (.prim (.int 64)) .nil))))
+        [("a".toList, .str "5".toList)] [("c[]".toList, ["1".toList, [], "2".toList])] [("x-d".toList, ["v".toList])] none with
+     | .ok (.cons _ (.int 5) (.cons _ (.list (.cons (.int 1) (.cons (.int 2) .nil))) (.cons _ (.str _) (.cons _ (.int 3) .nil)))) => true
+     | _ => false) = true := by decide +kernel
 
 end GoZero.C08.Props
